@@ -115,7 +115,7 @@ func transformImpls(c *Ctx) []*ssa.Function {
 
 func ruleC15R2(c *Ctx) {
 	impls := transformImpls(c)
-	c.floor("C15.R2", "LogTransform implementations", len(impls), 14)
+	c.floor("C15.R2", "LogTransform implementations", len(impls), 8)
 	sRT := newSumm(c.P, anchorPred(aRunTransf))
 	nCont := 0
 	for _, fn := range impls {
@@ -1662,7 +1662,7 @@ func ruleC15R7(c *Ctx) {
 			}
 		})
 	}
-	c.floor("C15.R7", "value-matcher tags", len(ctors), 11)
+	c.floor("C15.R7", "value-matcher tags", len(ctors), 8)
 	var tags []string
 	for t := range ctors {
 		tags = append(tags, t)
